@@ -156,7 +156,7 @@ type Fault struct {
 	Idx      int           `json:"idx"`
 	From     time.Duration `json:"from"`
 	To       time.Duration `json:"to"`
-	Kind     string        `json:"kind"` // recoverable, unrecoverable, hang, slow
+	Kind     string        `json:"kind"` // recoverable, unrecoverable, hang, slow, slowdeaf
 	Delay    time.Duration `json:"delay,omitempty"`
 }
 
@@ -321,6 +321,9 @@ func RunWith(s *Scenario, dir string, custom sim.Script, beforeStop func(*sim.In
 		}
 		if f.Kind == "slow" {
 			return sim.Outcome{Kind: "ok", Delay: f.Delay}
+		}
+		if f.Kind == "slowdeaf" { // a slow success that does not notice the cancellation of its context
+			return sim.Outcome{Kind: "ok", Delay: f.Delay, IgnoreCancel: true}
 		}
 		return sim.Outcome{Kind: f.Kind, Delay: f.Delay}
 	}
